@@ -381,12 +381,30 @@ theorem lateBlocked_false (cfg : Config) (s : CState) (a : Step) (h : ∀ i, (s.
     lateBlocked cfg s a = false := by
   cases a <;> simp [lateBlocked, lateWindow_false cfg s _ (h _)]
 
-/-- one step of the engine, no fatal request in the configuration: the underlying state stays reachable (the step is a
-step of the underlying system or leaves it alone; the late-acceptance window does not exist because no pool ever
-stops), and without the hazard the loop thread is not lost -/
-theorem cstep_inv (h : Bool) (cfg : Config) (hf : hasFatal cfg = false) (s s1 : CState) (a : CStep)
-    (hI : Inv cfg s.base) (hc : cstep h cfg s a = some s1) :
-    Inv cfg s1.base ∧ run cfg s.base (baseSteps [a]) = some s1.base ∧ (h = false → s1.blocked = s.blocked) := by
+/-- with transportable error values and an intact pool a step goes through the process pool exactly as the underlying
+system performs it -/
+theorem stepVia_eq (env : Env) (cfg : Config) (s : CState) (a : Step) (htr : ∀ e, env.transportable e = true)
+    (hp : s.packBroken = false) :
+    stepVia env cfg s a = match step cfg s.base a with
+      | none => none
+      | some b => some { s with base := b } := by
+  cases a <;> try rfl
+  rename_i c
+  simp only [stepVia, respondStep, step, hp]
+  cases s.base.phase c <;> try rfl
+  rename_i o
+  simp only [Bool.false_eq_true, if_false]
+  cases (encode cfg c o).err? with
+  | none => rfl
+  | some e => simp [htr e]
+
+/-- one step of the engine, no fatal request in the configuration, transportable error values: the underlying state
+stays reachable (the step is a step of the underlying system or leaves it alone; the late-acceptance window does not
+exist because no pool ever stops; the process pool stays intact), and without the hazard the loop thread is not lost -/
+theorem cstep_inv (env : Env) (cfg : Config) (hf : hasFatal cfg = false) (htr : ∀ e, env.transportable e = true)
+    (s s1 : CState) (a : CStep) (hI : Inv cfg s.base) (hp : s.packBroken = false) (hc : cstep env cfg s a = some s1) :
+    Inv cfg s1.base ∧ run cfg s.base (baseSteps [a]) = some s1.base ∧ s1.packBroken = false
+      ∧ (env.hazard = false → s1.blocked = s.blocked) := by
   have hns : ∀ i, (s.base.execs i).stopped = false := by
     intro i
     cases hs : (s.base.execs i).stopped with
@@ -394,7 +412,7 @@ theorem cstep_inv (h : Bool) (cfg : Config) (hf : hasFatal cfg = false) (s s1 : 
     | true => have := hI.c.stop_fatal i hs; simp [hf] at this
   cases a with
   | step a =>
-    simp only [cstep, lateBlocked_false cfg s a hns] at hc
+    simp only [cstep, lateBlocked_false cfg s a hns, stepVia_eq env cfg s a htr hp] at hc
     split at hc
     · cases hc
     · cases hb : step cfg s.base a with
@@ -402,20 +420,20 @@ theorem cstep_inv (h : Bool) (cfg : Config) (hf : hasFatal cfg = false) (s s1 : 
       | some b =>
         simp only [hb, Bool.false_eq_true, if_false, Option.some.injEq] at hc
         subst hc
-        exact ⟨hI.step a hb, by simp [baseSteps, run, hb], fun _ => rfl⟩
+        exact ⟨hI.step a hb, by simp [baseSteps, run, hb], hp, fun _ => rfl⟩
   | wedge c =>
     simp only [cstep] at hc
     split at hc
     · rename_i hcond
       simp only [Option.some.injEq] at hc
       subst hc
-      refine ⟨hI, rfl, fun hh => ?_⟩
-      subst hh; simp at hcond
+      refine ⟨hI, rfl, hp, fun hh => ?_⟩
+      simp [hh] at hcond
     · cases hc
   | exit i =>
     simp only [cstep] at hc
     split at hc
-    · simp only [Option.some.injEq] at hc; subst hc; exact ⟨hI, rfl, fun _ => rfl⟩
+    · simp only [Option.some.injEq] at hc; subst hc; exact ⟨hI, rfl, hp, fun _ => rfl⟩
     · cases hc
   | lateSubmit c =>
     simp only [cstep] at hc
@@ -425,45 +443,49 @@ theorem cstep_inv (h : Bool) (cfg : Config) (hf : hasFatal cfg = false) (s s1 : 
       simp at hcond
     · cases hc
 
-/-- every schedule of the engine (no fatal request) performs a schedule of the underlying transition system -/
-theorem crun_inv (h : Bool) (cfg : Config) (hf : hasFatal cfg = false) : ∀ (sched : List CStep) (s s' : CState),
-    Inv cfg s.base → crun h cfg s sched = some s' →
-    Inv cfg s'.base ∧ run cfg s.base (baseSteps sched) = some s'.base ∧ (h = false → s'.blocked = s.blocked) := by
+/-- every schedule of the engine (no fatal request, transportable error values) performs a schedule of the underlying
+transition system, and the process pool of `respond` is never broken -/
+theorem crun_inv (env : Env) (cfg : Config) (hf : hasFatal cfg = false) (htr : ∀ e, env.transportable e = true) :
+    ∀ (sched : List CStep) (s s' : CState), Inv cfg s.base → s.packBroken = false → crun env cfg s sched = some s' →
+    Inv cfg s'.base ∧ run cfg s.base (baseSteps sched) = some s'.base ∧ s'.packBroken = false
+      ∧ (env.hazard = false → s'.blocked = s.blocked) := by
   intro sched
   induction sched with
-  | nil => intro s s' hI hr; simp [crun] at hr; subst hr; exact ⟨hI, rfl, fun _ => rfl⟩
+  | nil => intro s s' hI hp hr; simp [crun] at hr; subst hr; exact ⟨hI, rfl, hp, fun _ => rfl⟩
   | cons a as ih =>
-    intro s s' hI hr
+    intro s s' hI hp hr
     simp only [crun] at hr
-    cases hc : cstep h cfg s a with
+    cases hc : cstep env cfg s a with
     | none => simp [hc] at hr
     | some s1 =>
       rw [hc] at hr
-      obtain ⟨hI1, hr1, hb1⟩ := cstep_inv h cfg hf s s1 a hI hc
-      obtain ⟨hI2, hr2, hb2⟩ := ih s1 s' hI1 hr
-      refine ⟨hI2, ?_, fun hh => by rw [hb2 hh, hb1 hh]⟩
+      obtain ⟨hI1, hr1, hp1, hb1⟩ := cstep_inv env cfg hf htr s s1 a hI hp hc
+      obtain ⟨hI2, hr2, hp2, hb2⟩ := ih s1 s' hI1 hp1 hr
+      refine ⟨hI2, ?_, hp2, fun hh => by rw [hb2 hh, hb1 hh]⟩
       rw [baseSteps_cons, run_append, hr1]
       exact hr2
+
+theorem envOf_transportable (h : Bool) : ∀ e, (envOf h).transportable e = true := fun _ => rfl
 
 /-- **Never crossed, never duplicated — with or without the hazard**: whatever the engine answers is the caller's own
 outcome, at most once (the loss of the loop thread only ever takes answers away). -/
 theorem C16_coldfork_exact (h : Bool) (cfg : Config) (sched : List CStep) (s : CState) (hl : cfg.locked = true)
-    (hr : cfg.reset = .always) (hf : hasFatal cfg = false) (hrun : crun h cfg cinit sched = some s) :
+    (hr : cfg.reset = .always) (hf : hasFatal cfg = false) (hrun : crun (envOf h) cfg cinit sched = some s) :
     (∀ c o, (c, o) ∈ s.base.answers → o = expected cfg c) ∧ ∀ c, nAnswers s.base c ≤ 1 := by
-  have hb := (crun_inv h cfg hf sched cinit s Inv.init hrun).2.1
+  have hb := (crun_inv (envOf h) cfg hf (envOf_transportable h) sched cinit s Inv.init rfl hrun).2.1
   exact ⟨C16_exact cfg _ s.base hl hr hf hb, (C16_correlation cfg _ s.base hb).2.1⟩
 
 /-- "Exactly once" for the engine with its loop thread, whichever variant of the component loader. -/
 def C16_coldfork_full : Prop :=
   ∀ (h : Bool) (cfg : Config) (sched : List CStep) (s : CState), cfg.locked = true → cfg.reset = .always →
-    hasFatal cfg = false → 1 ≤ cfg.workers → crun h cfg cinit sched = some s → cstuck h cfg s = true →
+    hasFatal cfg = false → 1 ≤ cfg.workers → crun (envOf h) cfg cinit sched = some s → cstuck (envOf h) cfg s = true →
     ∀ c, s.base.phase c ≠ .fresh → nAnswers s.base c = 1
 
 /-- It holds for the repaired loader (`hazard = false`: `forml` stays in `sys.modules`, nobody re-imports it). -/
 theorem C16_coldfork_partial (cfg : Config) (sched : List CStep) (s : CState)
-    (hf : hasFatal cfg = false) (hw : 1 ≤ cfg.workers) (hrun : crun false cfg cinit sched = some s)
-    (hst : cstuck false cfg s = true) : ∀ c, s.base.phase c ≠ .fresh → nAnswers s.base c = 1 := by
-  obtain ⟨hI, hb, hnb⟩ := crun_inv false cfg hf sched cinit s Inv.init hrun
+    (hf : hasFatal cfg = false) (hw : 1 ≤ cfg.workers) (hrun : crun (envOf false) cfg cinit sched = some s)
+    (hst : cstuck (envOf false) cfg s = true) : ∀ c, s.base.phase c ≠ .fresh → nAnswers s.base c = 1 := by
+  obtain ⟨hI, hb, hpk, hnb⟩ := crun_inv (envOf false) cfg hf (envOf_transportable false) sched cinit s Inv.init rfl hrun
   have hnb : s.blocked = false := hnb rfl
   have hns : ∀ i, (s.base.execs i).stopped = false := by
     intro i
@@ -475,7 +497,8 @@ theorem C16_coldfork_partial (cfg : Config) (sched : List CStep) (s : CState)
     intro a ha
     simp only [cstuck, ccandidates, List.all_eq_true, List.mem_append, List.mem_map] at hst
     have := hst (.step a) (Or.inl (Or.inl (Or.inl ⟨a, ha, rfl⟩)))
-    simp only [cstep, hnb, Bool.false_and, lateBlocked_false cfg s a hns] at this
+    simp only [cstep, hnb, Bool.false_and, lateBlocked_false cfg s a hns,
+      stepVia_eq (envOf false) cfg s a (envOf_transportable false) hpk] at this
     cases hs : step cfg s.base a with
     | none => simp
     | some b => simp [hs] at this
@@ -497,13 +520,13 @@ def coldSched : List CStep :=
 any more and neither the first caller of the new executor nor the caller whose result is ready is ever answered. -/
 theorem C16_coldfork_counterexample : ¬ C16_coldfork_full := by
   intro h
-  cases hr : crun true coldCfg cinit coldSched with
+  cases hr : crun (envOf true) coldCfg cinit coldSched with
   | none => exact absurd hr (by decide)
   | some s =>
-    have hobs : (cstuck true coldCfg s, s.base.phase 0, nAnswers s.base 0, nAnswers s.base 1)
+    have hobs : (cstuck (envOf true) coldCfg s, s.base.phase 0, nAnswers s.base 0, nAnswers s.base 1)
         = (true, .submitted 0 0, 0, 0) := by
-      have : (crun true coldCfg cinit coldSched).map
-          (fun s => (cstuck true coldCfg s, s.base.phase 0, nAnswers s.base 0, nAnswers s.base 1))
+      have : (crun (envOf true) coldCfg cinit coldSched).map
+          (fun s => (cstuck (envOf true) coldCfg s, s.base.phase 0, nAnswers s.base 0, nAnswers s.base 1))
           = some (true, .submitted 0 0, 0, 0) := by decide
       rw [hr] at this; simpa using this
     simp only [Prod.mk.injEq] at hobs
@@ -511,22 +534,22 @@ theorem C16_coldfork_counterexample : ¬ C16_coldfork_full := by
     omega
 
 /-- the same list is not a schedule of the repaired loader (the hazardous step does not exist) … -/
-example : crun false coldCfg cinit coldSched = none := by decide
+example : crun (envOf false) coldCfg cinit coldSched = none := by decide
 /-- … and there the same requests end answered: caller 1 is submitted instead, everything is computed and delivered -/
-example : (crun false coldCfg cinit (coldSched.dropLast ++
+example : (crun (envOf false) coldCfg cinit (coldSched.dropLast ++
     [.step (.submit 1), .step (.deliver 0), .step (.respond 0), .step (.take 1 0), .step (.finish 1 0),
      .step (.deliver 1), .step (.respond 1)])).map
-      (fun s => (cstuck false coldCfg s, s.base.answers)) = some (true, [(1, .value 1 2), (0, .value 0 1)]) := by
+      (fun s => (cstuck (envOf false) coldCfg s, s.base.answers)) = some (true, [(1, .value 1 2), (0, .value 0 1)]) := by
   decide
 
 /-! ### accepting a task after the pool has stopped (outside the property's fault class) -/
 
 /-- A request dealt to a pool that has stopped is refused (`RuntimeError('Executor not running')`). -/
 def C16_late_refusal_full : Prop :=
-  ∀ (h : Bool) (cfg : Config) (sched : List CStep) (s : CState) (c : Nat), crun h cfg cinit sched = some s →
+  ∀ (h : Bool) (cfg : Config) (sched : List CStep) (s : CState) (c : Nat), crun (envOf h) cfg cinit sched = some s →
     s.blocked = false → s.base.phase c = .resolved → (spec cfg c).badEncoding = false →
     (s.base.execs (cfg.select (spec cfg c).app)).stopped = true →
-    ∃ s', cstep h cfg s (.step (.submit c)) = some s' ∧ (c, .error .notRunning) ∈ s'.base.answers
+    ∃ s', cstep (envOf h) cfg s (.step (.submit c)) = some s' ∧ (c, .error .notRunning) ∈ s'.base.answers
 
 /-- It is — once the executor thread has left its loop (`Executor.apply`: `if not self.is_alive(): raise`); the task
 cannot be accepted any more then. -/
@@ -534,13 +557,13 @@ theorem C16_late_refusal_partial (h : Bool) (cfg : Config) (s : CState) (c : Nat
     (hp : s.base.phase c = .resolved) (he : (spec cfg c).badEncoding = false)
     (hs : (s.base.execs (cfg.select (spec cfg c).app)).stopped = true)
     (hx : s.exited.contains (cfg.select (spec cfg c).app) = true) :
-    (∃ s', cstep h cfg s (.step (.submit c)) = some s' ∧ (c, .error .notRunning) ∈ s'.base.answers)
-    ∧ cstep h cfg s (.lateSubmit c) = none := by
+    (∃ s', cstep (envOf h) cfg s (.step (.submit c)) = some s' ∧ (c, .error .notRunning) ∈ s'.base.answers)
+    ∧ cstep (envOf h) cfg s (.lateSubmit c) = none := by
   have hlw : lateWindow cfg s c = false := by
     have hm : cfg.select (spec cfg c).app ∈ s.exited := by simpa using hx
     simp [lateWindow, hm]
   refine ⟨⟨{ s with base := answer s.base c (.error .notRunning) }, ?_, by simp [answer]⟩, by simp [cstep, hlw]⟩
-  simp [cstep, hb, lateBlocked, hlw, step, hp, he, hs]
+  simp [cstep, hb, lateBlocked, hlw, stepVia, step, hp, he, hs]
 
 /-- the fatal request 0 has stopped the pool, the healthy caller 1 arrives afterwards, the executor thread has not
 noticed the stop yet -/
@@ -553,13 +576,13 @@ take it: the caller is neither answered nor refused.  Behaviour after a non-plat
 fault class; recorded. -/
 theorem C16_late_refusal_counterexample : ¬ C16_late_refusal_full := by
   intro h
-  cases hr : crun true fatalCfg cinit lateSched with
+  cases hr : crun (envOf true) fatalCfg cinit lateSched with
   | none => exact absurd hr (by decide)
   | some s =>
-    have hobs : (s.blocked, s.base.phase 1, (s.base.execs 0).stopped, (cstep true fatalCfg s (.step (.submit 1))).isNone)
+    have hobs : (s.blocked, s.base.phase 1, (s.base.execs 0).stopped, (cstep (envOf true) fatalCfg s (.step (.submit 1))).isNone)
         = (false, .resolved, true, true) := by
-      have : (crun true fatalCfg cinit lateSched).map
-          (fun s => (s.blocked, s.base.phase 1, (s.base.execs 0).stopped, (cstep true fatalCfg s (.step (.submit 1))).isNone))
+      have : (crun (envOf true) fatalCfg cinit lateSched).map
+          (fun s => (s.blocked, s.base.phase 1, (s.base.execs 0).stopped, (cstep (envOf true) fatalCfg s (.step (.submit 1))).isNone))
           = some (false, .resolved, true, true) := by decide
       rw [hr] at this; simpa using this
     simp only [Prod.mk.injEq] at hobs
@@ -568,11 +591,65 @@ theorem C16_late_refusal_counterexample : ¬ C16_late_refusal_full := by
     simp at hobs
 
 /-- what happens instead: the task is accepted, nothing is enabled any more, caller 1 has no answer -/
-example : (crun true fatalCfg cinit (lateSched ++ [.lateSubmit 1, .exit 0])).map
-    (fun s => (cstuck true fatalCfg s, s.base.phase 1, nAnswers s.base 1)) = some (true, .submitted 0 1, 0) := by decide
+example : (crun (envOf true) fatalCfg cinit (lateSched ++ [.lateSubmit 1, .exit 0])).map
+    (fun s => (cstuck (envOf true) fatalCfg s, s.base.phase 1, nAnswers s.base 1)) = some (true, .submitted 0 1, 0) := by decide
 /-- had the thread left its loop first, the caller would have been refused -/
-example : (crun true fatalCfg cinit (lateSched ++ [.exit 0, .step (.submit 1)])).map
-    (fun s => (cstuck true fatalCfg s, s.base.answers)) = some (true, [(1, .error .notRunning)]) := by decide
+example : (crun (envOf true) fatalCfg cinit (lateSched ++ [.exit 0, .step (.submit 1)])).map
+    (fun s => (cstuck (envOf true) fatalCfg s, s.base.answers)) = some (true, [(1, .error .notRunning)]) := by decide
+
+/-! ### the process pool of `Wrapper.respond`, shared by all applications -/
+
+/-- "Whatever the engine answers is the caller's own outcome" without any assumption on what survives the way back
+from the pool processes. -/
+def C16_respond_pool_full : Prop :=
+  ∀ (env : Env) (cfg : Config) (sched : List CStep) (s : CState), cfg.locked = true → cfg.reset = .always →
+    hasFatal cfg = false → crun env cfg cinit sched = some s → ∀ c o, (c, o) ∈ s.base.answers → o = expected cfg c
+
+/-- **A request with no acceptable response encoding fails alone** (and so does every other platform failure): when the
+error values can be transported out of the pool processes — the code that exists: plain exceptions with a message —
+the shared pool is never broken under any schedule, every answer is the caller's own, at most once. -/
+theorem C16_respond_pool_isolation (env : Env) (cfg : Config) (sched : List CStep) (s : CState)
+    (htr : ∀ e, env.transportable e = true) (hl : cfg.locked = true) (hr : cfg.reset = .always)
+    (hf : hasFatal cfg = false) (hrun : crun env cfg cinit sched = some s) :
+    s.packBroken = false ∧ (∀ c o, (c, o) ∈ s.base.answers → o = expected cfg c) ∧ ∀ c, nAnswers s.base c ≤ 1 := by
+  obtain ⟨_, hb, hp, _⟩ := crun_inv env cfg hf htr sched cinit s Inv.init rfl hrun
+  exact ⟨hp, C16_exact cfg _ s.base hl hr hf hb, (C16_correlation cfg _ s.base hb).2.1⟩
+
+/-- one application, one worker: caller 0 healthy, caller 1 accepts no encoding there is, caller 2 healthy -/
+def poisonCfg : Config :=
+  { callers := [⟨0, false, false, ⟨.ok, 1⟩⟩, ⟨0, false, true, ⟨.ok, 2⟩⟩, ⟨0, false, false, ⟨.ok, 3⟩⟩], inventory := [0],
+    select := fun a => a, workers := 1, locked := true }
+
+/-- an `Encoding.Unsupported` that cannot be rebuilt from its `args` in the engine process -/
+def poisonEnv : Env := { hazard := false, transportable := fun e => e != .unsupported }
+
+/-- callers 0 and 1 have their predictions and are being packed; caller 1's `_pack` raises first; caller 2 comes later -/
+def poisonSched : List CStep :=
+  [.step (.arrive 0), .step (.desc 0), .step (.desc 0), .step (.desc 0), .step (.desc 0), .step (.desc 0),
+   .step (.submit 0), .step (.take 0 0), .step (.finish 0 0), .step (.deliver 0),
+   .step (.arrive 1), .step (.desc 1), .step (.submit 1), .step (.take 0 0), .step (.finish 0 0), .step (.deliver 0),
+   .step (.respond 1), .step (.respond 0),
+   .step (.arrive 2), .step (.desc 2), .step (.submit 2), .step (.take 0 0), .step (.finish 0 0), .step (.deliver 0),
+   .step (.respond 2)]
+
+/-- **A poisoning error does not fail alone**: with an error value that cannot come back from the pool process the pool
+breaks — the in-flight healthy caller 0 and the later healthy caller 2 receive `BrokenProcessPool`. -/
+theorem C16_respond_pool_counterexample : ¬ C16_respond_pool_full := by
+  intro h
+  cases hr : crun poisonEnv poisonCfg cinit poisonSched with
+  | none => exact absurd hr (by decide)
+  | some s =>
+    have hans : s.base.answers = [(2, .error .brokenPool), (0, .error .brokenPool), (1, .error .brokenPool)] := by
+      have : (crun poisonEnv poisonCfg cinit poisonSched).map (·.base.answers)
+          = some [(2, .error .brokenPool), (0, .error .brokenPool), (1, .error .brokenPool)] := by decide
+      rw [hr] at this; simpa using this
+    have := h poisonEnv poisonCfg poisonSched s (by decide) (by decide) (by decide) hr 2 (.error .brokenPool) (by simp [hans])
+    exact absurd this (by decide)
+
+/-- the same schedule with the error values of the code that exists: the failing caller gets its own error, the others
+their predictions -/
+example : (crun (envOf false) poisonCfg cinit poisonSched).map (fun s => (s.packBroken, s.base.answers))
+    = some (false, [(2, .value 0 3), (0, .value 0 1), (1, .error .unsupported)]) := by decide
 
 /-! ### the REST gateway -/
 
